@@ -192,14 +192,30 @@ func cmdTimepbRecord(args []string) {
 		if ds < 0 || (ds == 0 && r.Intn(2) == 0) {
 			dn = -dn
 		}
+		// the extremes of time.Duration itself (AddStd's argument type): split exactly into
+		// seconds and nanos with integer division
+		var stdDur *time.Duration
+		if i%7 == 6 {
+			pool := []time.Duration{math.MinInt64, math.MinInt64 + 1, math.MaxInt64, math.MaxInt64 - 1, -1, 1, -999999999, 999999999, -1000000000, 1000000000,
+				-1000000001, 1 << 62, -(1 << 62), math.MinInt64 + 854775808, math.MaxInt64 - 854775807}
+			sd := pool[r.Intn(len(pool))]
+			stdDur = &sd
+			valid = true
+			ts = secsT[1+r.Intn(len(secsT)-2)]
+			ds, dn = int64(sd)/1000000000, int32(int64(sd)%1000000000)
+		}
 		t := &timestamppb.Timestamp{Seconds: ts, Nanos: tn}
 		d := &durationpb.Duration{Seconds: ds, Nanos: dn}
 		o := doAdd(t, d)
 		ev := map[string]any{"ev": "add", "ts": proj.Digits64(uint64(ts)), "tn": tn, "ds": proj.Digits64(uint64(ds)), "dn": dn,
 			"rs": proj.Digits64(uint64(o.S)), "rn": o.N, "panic": o.Panic, "fresh": o.Fresh, "valid": valid}
 		// AddStd agreement where d is expressible as a time.Duration and t is a valid Timestamp
-		if valid && ds > -9223372036 && ds < 9223372036 {
-			os := doAddStd(t, time.Duration(ds)*time.Second+time.Duration(dn))
+		if valid && (stdDur != nil || (ds > -9223372036 && ds < 9223372036)) {
+			sd := time.Duration(ds)*time.Second + time.Duration(dn)
+			if stdDur != nil {
+				sd = *stdDur
+			}
+			os := doAddStd(t, sd)
 			ev["std"] = true
 			ev["std_s"] = proj.Digits64(uint64(os.S))
 			ev["std_n"] = os.N
